@@ -1730,3 +1730,447 @@ Proof.
   end.
   match goal with |- r_tree (if ?b then _ else _) = _ => destruct b end; reflexivity.
 Qed.
+
+(* --- more facts on chains and unique ids --- *)
+
+Lemma tp_go_some : forall w ch p, tp_go w ch = Some p -> exists c, In c ch /\ t_path w c = Some p.
+Proof.
+  intros w ch p Ego. induction ch as [|c r IHr]; [discriminate|].
+  cbn [tp_go] in Ego. destruct (t_path w c) as [q|] eqn:Ec.
+  - inversion Ego; subst. exists c. split; [left; reflexivity|exact Ec].
+  - destruct (IHr Ego) as [c0 [Hin Hc0]]. exists c0. split; [right; exact Hin|exact Hc0].
+Qed.
+
+Lemma t_path_last : forall w t p, t_path w t = Some p -> exists q x, p = q ++ [x] /\ t_id x = w.
+Proof.
+  intros w. induction t as [i ch IH] using wtree_ind'. intros p Hp.
+  rewrite t_path_unf in Hp. destruct (w_id i =? w) eqn:E.
+  - inversion Hp; subst. exists [], (Node i ch). split; [reflexivity|]. unfold t_id. cbn [t_info]. lia.
+  - destruct (tp_go w ch) as [p'|] eqn:Ego; [|discriminate]. inversion Hp; subst.
+    destruct (tp_go_some _ _ _ Ego) as [c [Hin Hc]]. rewrite Forall_forall in IH.
+    destruct (IH c Hin p' Hc) as [q [x [Hq Hx]]]. subst p'.
+    exists (Node i ch :: q), x. split; [reflexivity|exact Hx].
+Qed.
+
+Lemma t_chain_facts : forall id T chain, t_chain id T = Some chain ->
+  uplinked chain /\ Forall (fun a => subtree a T) chain /\
+  (exists x rest, chain = x :: rest /\ t_id x = id) /\
+  (forall x, chain = [x] -> x = T).
+Proof.
+  intros id T chain Hc. unfold t_chain in Hc.
+  destruct (t_path id T) as [p|] eqn:Ep; [|discriminate]. inversion Hc; subst chain. clear Hc.
+  destruct (t_path_spec _ _ _ Ep) as [[tl Htl] [Hup Hall]].
+  destruct (t_path_last _ _ _ Ep) as [q [x [Hq Hx]]].
+  split; [exact Hup|]. split.
+  { rewrite Forall_forall in *. intros a Ha. apply Hall. apply in_rev. exact Ha. }
+  split.
+  - exists x, (rev q). split; [|exact Hx]. rewrite Hq, rev_app_distr. reflexivity.
+  - intros y Hy. assert (Hp : p = [y]).
+    { rewrite <- (rev_involutive p), Hy. reflexivity. }
+    rewrite Htl in Hp. inversion Hp. reflexivity.
+Qed.
+
+Lemma subtree_same_id : forall T a b, NoDup (t_ids T) -> subtree a T -> subtree b T ->
+  t_id a = t_id b -> a = b.
+Proof.
+  intros T a b Hnd Ha Hb Hid.
+  pose proof (t_find_subtree _ _ Ha Hnd) as Hfa. pose proof (t_find_subtree _ _ Hb Hnd) as Hfb.
+  rewrite Hid, Hfb in Hfa. inversion Hfa. reflexivity.
+Qed.
+
+Lemma proper_sub_ids : forall b T c, subtree b T -> In c (t_kids b) ->
+  In (t_id c) (flat_map t_ids (t_kids T)).
+Proof.
+  intros b T c Hs. induction Hs as [t|s c0 t Hin Hs IH]; intro Hc.
+  - apply in_flat_map. exists c. split; [exact Hc|apply t_ids_head].
+  - apply in_flat_map. exists c0. split; [exact Hin|].
+    destruct c0 as [j cs]. cbn [t_ids t_kids] in *. right. apply IH. exact Hc.
+Qed.
+
+Lemma kid_not_root : forall T b c, NoDup (t_ids T) -> subtree b T -> In c (t_kids b) -> t_id c <> t_id T.
+Proof.
+  intros T b c Hnd Hs Hc Heq. pose proof (proper_sub_ids _ _ _ Hs Hc) as Hin.
+  destruct T as [i ch]. apply node_nodup in Hnd. destruct Hnd as [Hni _].
+  apply Hni. cbn [t_kids] in Hin. rewrite Heq in Hin. exact Hin.
+Qed.
+
+Lemma subtree_inv : forall a i ch, subtree a (Node i ch) ->
+  a = Node i ch \/ exists c, In c ch /\ subtree a c.
+Proof.
+  intros a i ch Hs. inversion Hs as [t|s c t Hin Hs']; subst.
+  - left. reflexivity.
+  - right. exists c. split; assumption.
+Qed.
+
+(* with unique ids a window has one parent *)
+Lemma parent_unique : forall T, NoDup (t_ids T) ->
+  forall a b c c', subtree a T -> subtree b T -> In c (t_kids a) -> In c' (t_kids b) ->
+  t_id c = t_id c' -> a = b.
+Proof.
+  induction T as [i ch IH] using wtree_ind'. intros Hnd a b c c' Ha Hb Hc Hc' Hid.
+  pose proof Hnd as Hnd0. apply node_nodup in Hnd. destruct Hnd as [Hni Hndch].
+  assert (Hmix : forall a c kb b c', a = Node i ch -> In c (t_kids a) -> In kb ch -> subtree b kb ->
+                   In c' (t_kids b) -> t_id c = t_id c' -> False).
+  { intros a0 c0 kb b0 c0' Ha0 Hc0 Hkb Hb0 Hc0' Hid0. subst a0. cbn [t_kids] in Hc0.
+    pose proof (proper_sub_ids _ _ _ Hb0 Hc0') as Hin'.
+    assert (Hck : c0 = kb).
+    { eapply kids_disjoint; [exact Hndch|exact Hc0|exact Hkb|apply t_ids_head|].
+      rewrite Hid0. destruct kb as [j cs]. cbn [t_ids t_kids] in *. right. exact Hin'. }
+    subst c0. pose proof (kids_nodup_in _ _ Hndch Hkb) as Hndk.
+    destruct kb as [j cs]. apply node_nodup in Hndk. destruct Hndk as [Hnk _].
+    apply Hnk. cbn [t_kids] in Hin'. rewrite <- Hid0 in Hin'. exact Hin'. }
+  apply subtree_inv in Ha. apply subtree_inv in Hb.
+  destruct Ha as [Ha|[ka [Hka Ha]]]; destruct Hb as [Hb|[kb [Hkb Hb]]].
+  - congruence.
+  - exfalso. eapply Hmix; eassumption.
+  - exfalso. eapply (Hmix b c' ka a c); try eassumption. symmetry. exact Hid.
+  - assert (Hkk : ka = kb).
+    { eapply kids_disjoint; [exact Hndch|exact Hka|exact Hkb| |].
+      - pose proof (proper_sub_ids _ _ _ Ha Hc) as Hin1.
+        destruct ka as [j cs]. cbn [t_ids t_kids] in *. right. exact Hin1.
+      - rewrite Hid. pose proof (proper_sub_ids _ _ _ Hb Hc') as Hin2.
+        destruct kb as [j cs]. cbn [t_ids t_kids] in *. right. exact Hin2. }
+    subst kb. rewrite Forall_forall in IH.
+    eapply (IH ka Hka (kids_nodup_in _ _ Hndch Hka)); eassumption.
+Qed.
+
+(* --- win_show --- *)
+
+Definition F_show (id : Z) (i : winfo) : winfo := if w_id i =? id then set_vis i true else i.
+Definition G_link (pid id : Z) (j : winfo) : winfo := if w_id j =? pid then set_fchild j (Some id) else j.
+
+Lemma F_show_id : forall id i, w_id (F_show id i) = w_id i.
+Proof. intros id i. unfold F_show. destruct (w_id i =? id); reflexivity. Qed.
+Lemma F_show_fchild : forall id i, w_fchild (F_show id i) = w_fchild i.
+Proof. intros id i. unfold F_show. destruct (w_id i =? id); reflexivity. Qed.
+Lemma F_show_vis : forall id i, w_vis i = true -> w_vis (F_show id i) = true.
+Proof. intros id i Hv. unfold F_show. destruct (w_id i =? id); [reflexivity|exact Hv]. Qed.
+Lemma G_link_id : forall pid id j, w_id (G_link pid id j) = w_id j.
+Proof. intros pid id j. unfold G_link. destruct (w_id j =? pid); reflexivity. Qed.
+Lemma G_link_vis : forall pid id j, w_vis (G_link pid id j) = w_vis j.
+Proof. intros pid id j. unfold G_link. destruct (w_id j =? pid); reflexivity. Qed.
+
+Lemma show_tree1_wf : forall id t, wf_focus t -> wf_focus (t_update (fun j => set_vis j true) id t).
+Proof.
+  intros id t Hwf.
+  replace (t_update (fun j => set_vis j true) id t) with (t_map (F_show id) t)
+    by (rewrite t_update_map; reflexivity).
+  apply wf_focus_map; [apply F_show_id|].
+  intros i ch Hs k Hk. rewrite F_show_fchild in Hk.
+  destruct (wf_focus_node _ _ _ _ Hwf Hs Hk) as [c [Hin [Hid Hv]]].
+  exists c. split; [exact Hin|]. split; [exact Hid|apply F_show_vis; exact Hv].
+Qed.
+
+Lemma show_tree2_wf : forall id T w p,
+  NoDup (t_ids T) -> wf_focus T -> subtree p T -> In w (t_kids p) -> t_id w = id ->
+  wf_focus (t_update (fun j => set_fchild j (Some id)) (t_id p)
+                     (t_update (fun j => set_vis j true) id T)).
+Proof.
+  intros id T w p Hnd Hwf Hp Hw Hwid.
+  replace (t_update (fun j => set_fchild j (Some id)) (t_id p) (t_update (fun j => set_vis j true) id T))
+    with (t_map (fun i => G_link (t_id p) id (F_show id i)) T)
+    by (rewrite !t_update_map, t_map_comp; reflexivity).
+  apply wf_focus_map. { intro i. rewrite G_link_id. apply F_show_id. }
+  intros i ch Hs k Hk.
+  unfold G_link in Hk. rewrite F_show_id in Hk.
+  destruct (w_id i =? t_id p) eqn:Epid.
+  - cbn [set_fchild w_fchild] in Hk. inversion Hk; subst k.
+    assert (Hnp : Node i ch = p).
+    { eapply subtree_same_id; [exact Hnd|exact Hs|exact Hp|]. unfold t_id at 1. cbn [t_info]. lia. }
+    subst p. cbn [t_kids] in Hw. exists w. split; [exact Hw|]. split; [exact Hwid|].
+    rewrite G_link_vis. unfold F_show. unfold t_id in Hwid. rewrite Hwid, Z.eqb_refl. reflexivity.
+  - rewrite F_show_fchild in Hk.
+    destruct (wf_focus_node _ _ _ _ Hwf Hs Hk) as [c [Hin [Hid Hv]]].
+    exists c. split; [exact Hin|]. split; [exact Hid|].
+    rewrite G_link_vis. apply F_show_vis. exact Hv.
+Qed.
+
+Theorem wf_focus_win_show : forall cfg st id,
+  ids_unique (r_tree st) -> wf_focus (r_tree st) -> wf_focus (r_tree (win_show cfg st id)).
+Proof.
+  intros cfg st id Hu Hwf. unfold ids_unique in Hu. unfold win_show.
+  destruct (t_chain id (r_tree st)) as [chain|] eqn:Echain; [|exact Hwf].
+  destruct (t_chain_facts _ _ _ Echain) as [Hup [Hall [[x [rest [Hx Hxid]]] _]]].
+  subst chain. cbn zeta.
+  destruct rest as [|p rest'].
+  - rewrite win_expose_tree. cbn [andb]. cbn [set_tree r_tree]. apply show_tree1_wf. exact Hwf.
+  - match goal with |- context [if ?l then t_update _ _ _ else _] => destruct l eqn:Elink end.
+    + rewrite win_expose_tree.
+      match goal with |- wf_focus (r_tree (if ?b then _ else _)) => destruct b end;
+        cbn [request_restore set_flags set_tree r_tree];
+        (eapply show_tree2_wf; [exact Hu|exact Hwf| | |exact Hxid]).
+      * inversion Hall as [|? ? _ Hall']; subst. inversion Hall'; subst. assumption.
+      * cbn [uplinked] in Hup. destruct Hup as [Hin _]. exact Hin.
+      * inversion Hall as [|? ? _ Hall']; subst. inversion Hall'; subst. assumption.
+      * cbn [uplinked] in Hup. destruct Hup as [Hin _]. exact Hin.
+    + rewrite win_expose_tree. cbn [andb]. cbn [set_tree r_tree]. apply show_tree1_wf. exact Hwf.
+Qed.
+
+(* --- win_hide --- *)
+
+Definition F_hide (id : Z) (i : winfo) : winfo := if w_id i =? id then set_vis i false else i.
+Definition G_clear (pid id : Z) (j : winfo) : winfo := if w_id j =? pid then clear_link id j else j.
+
+Lemma F_hide_id : forall id i, w_id (F_hide id i) = w_id i.
+Proof. intros id i. unfold F_hide. destruct (w_id i =? id); reflexivity. Qed.
+Lemma F_hide_fchild : forall id i, w_fchild (F_hide id i) = w_fchild i.
+Proof. intros id i. unfold F_hide. destruct (w_id i =? id); reflexivity. Qed.
+Lemma F_hide_vis : forall id i, w_id i <> id -> w_vis (F_hide id i) = w_vis i.
+Proof. intros id i Hn. unfold F_hide. destruct (w_id i =? id) eqn:E; [lia|reflexivity]. Qed.
+Lemma G_clear_id : forall pid id j, w_id (G_clear pid id j) = w_id j.
+Proof. intros pid id j. unfold G_clear. destruct (w_id j =? pid); [apply clear_link_id|reflexivity]. Qed.
+Lemma G_clear_vis : forall pid id j, w_vis (G_clear pid id j) = w_vis j.
+Proof. intros pid id j. unfold G_clear. destruct (w_id j =? pid); [apply clear_link_vis|reflexivity]. Qed.
+
+(* hiding the root *)
+Lemma hide_root_wf : forall T, NoDup (t_ids T) -> wf_focus T ->
+  wf_focus (t_update (fun j => set_vis j false) (t_id T) T).
+Proof.
+  intros T Hnd Hwf.
+  replace (t_update (fun j => set_vis j false) (t_id T) T) with (t_map (F_hide (t_id T)) T)
+    by (rewrite t_update_map; reflexivity).
+  apply wf_focus_map; [apply F_hide_id|].
+  intros i ch Hs k Hk. rewrite F_hide_fchild in Hk.
+  destruct (wf_focus_node _ _ _ _ Hwf Hs Hk) as [c [Hin [Hid Hv]]].
+  exists c. split; [exact Hin|]. split; [exact Hid|].
+  rewrite F_hide_vis; [exact Hv|].
+  change (w_id (t_info c)) with (t_id c).
+  eapply kid_not_root; [exact Hnd|exact Hs|exact Hin].
+Qed.
+
+(* hiding a window below the root, and unlinking it from its parent *)
+Lemma hide_tree_wf : forall id T w p,
+  NoDup (t_ids T) -> wf_focus T -> subtree p T -> In w (t_kids p) -> t_id w = id ->
+  wf_focus (t_update (clear_link id) (t_id p) (t_update (fun j => set_vis j false) id T)).
+Proof.
+  intros id T w p Hnd Hwf Hp Hw Hwid.
+  replace (t_update (clear_link id) (t_id p) (t_update (fun j => set_vis j false) id T))
+    with (t_map (fun i => G_clear (t_id p) id (F_hide id i)) T)
+    by (rewrite !t_update_map, t_map_comp; reflexivity).
+  apply wf_focus_map. { intro i. rewrite G_clear_id. apply F_hide_id. }
+  intros i ch Hs k Hk.
+  assert (Hk0 : w_fchild i = Some k).
+  { unfold G_clear, clear_link in Hk. rewrite F_hide_id, F_hide_fchild in Hk.
+    destruct (w_id i =? t_id p); [|rewrite F_hide_fchild in Hk; exact Hk].
+    destruct (opt_eqb (w_fchild i) id); [discriminate|rewrite F_hide_fchild in Hk; exact Hk]. }
+  destruct (wf_focus_node _ _ _ _ Hwf Hs Hk0) as [c [Hin [Hid Hv]]].
+  exists c. split; [exact Hin|]. split; [exact Hid|].
+  rewrite G_clear_vis. rewrite F_hide_vis; [exact Hv|].
+  change (w_id (t_info c)) with (t_id c). intro Hcid.
+  (* then this node is the parent p, whose link to id has just been cleared *)
+  assert (Hnp : Node i ch = p).
+  { eapply (parent_unique T Hnd _ _ c w); [exact Hs|exact Hp|exact Hin|exact Hw|congruence]. }
+  subst p. unfold G_clear, clear_link in Hk. rewrite F_hide_id, F_hide_fchild in Hk.
+  unfold t_id in Hk at 1. cbn [t_info] in Hk. rewrite Z.eqb_refl in Hk.
+  rewrite Hk0 in Hk. cbn [opt_eqb] in Hk. replace (k =? id) with true in Hk by lia.
+  discriminate.
+Qed.
+
+Theorem wf_focus_win_hide : forall cfg st id,
+  ids_unique (r_tree st) -> wf_focus (r_tree st) -> wf_focus (r_tree (win_hide cfg st id)).
+Proof.
+  intros cfg st id Hu Hwf. unfold ids_unique in Hu. unfold win_hide.
+  destruct (t_chain id (r_tree st)) as [chain|] eqn:Echain; [|exact Hwf].
+  destruct (t_chain_facts _ _ _ Echain) as [Hup [Hall [[x [rest [Hx Hxid]]] Hone]]].
+  subst chain. cbn zeta.
+  destruct rest as [|p rest'].
+  - cbn [set_tree r_tree]. pose proof (Hone x eq_refl) as Hxr. subst x. rewrite <- Hxid.
+    apply hide_root_wf; assumption.
+  - rewrite win_expose_tree.
+    assert (Hgoal : wf_focus (t_update (clear_link id) (t_id p)
+                       (t_update (fun j => set_vis j false) id (r_tree st)))).
+    { eapply hide_tree_wf; [exact Hu|exact Hwf| | |exact Hxid].
+      - inversion Hall as [|? ? _ Hall']; subst. inversion Hall'; subst. assumption.
+      - cbn [uplinked] in Hup. destruct Hup as [Hin _]. exact Hin. }
+    match goal with |- wf_focus (r_tree (if ?b then _ else _)) => destruct b end;
+      cbn [request_restore set_flags set_tree r_tree]; exact Hgoal.
+Qed.
+
+(* --- win_take_focus --- *)
+
+Lemma t_map_ext : forall F G, (forall i, F i = G i) -> forall t, t_map F t = t_map G t.
+Proof.
+  intros F G H. induction t as [i ch IH] using wtree_ind'.
+  cbn [t_map]. rewrite H. f_equal.
+  induction IH as [|c r Hc Hr IHr]; [reflexivity|]. cbn [map]. rewrite Hc, IHr. reflexivity.
+Qed.
+
+(* erasures: what wf_focus looks at (id, visibility, link), and the part of that which no
+   focus operation ever changes (id, visibility) *)
+Definition E_l (i : winfo) : winfo :=
+  mkW (w_id i) (mkRect 0 0 0 0) (w_vis i) false false false (w_fchild i) 0 0 0 false 0.
+Definition E_v (i : winfo) : winfo :=
+  mkW (w_id i) (mkRect 0 0 0 0) (w_vis i) false false false None 0 0 0 false 0.
+Definition lshape (t : wtree) : wtree := t_map E_l t.
+Definition vshape (t : wtree) : wtree := t_map E_v t.
+
+Lemma lshape_vshape : forall t t', lshape t = lshape t' -> vshape t = vshape t'.
+Proof.
+  intros t t' H. unfold vshape.
+  rewrite (t_map_ext E_v (fun i => E_v (E_l i))) by reflexivity.
+  rewrite <- !t_map_comp. unfold lshape in H. rewrite H. reflexivity.
+Qed.
+
+Section Erasure.
+  Variable E : winfo -> winfo.
+  Hypothesis HE : forall i b, E (set_focused i b) = E i.
+
+  Lemma focus_lost_E : forall t, t_map E (fst (focus_lost t)) = t_map E t.
+  Proof.
+    induction t as [i ch IH] using wtree_ind'. rewrite focus_lost_eq.
+    assert (Hgo : forall k, map (t_map E) (fst (fl_go k ch)) = map (t_map E) ch).
+    { intro k. induction IH as [|c r Hc Hr IHr]; [reflexivity|].
+      cbn [fl_go]. destruct (t_id c =? k).
+      - destruct (focus_lost c) as [c' e]. cbn [fst map] in *. rewrite Hc. reflexivity.
+      - fold (fl_go k r). destruct (fl_go k r) as [r' e]. cbn [fst map] in *. rewrite IHr. reflexivity. }
+    destruct (w_fchild i) as [k|].
+    - specialize (Hgo k). destruct (fl_go k ch) as [ch' e]. cbn [fst] in Hgo.
+      destruct (w_focused i); cbn [fst t_map]; rewrite ?HE, Hgo; reflexivity.
+    - destruct (w_focused i); cbn [fst t_map]; rewrite ?HE; reflexivity.
+  Qed.
+
+  Lemma t_at_E : forall g z, (forall s, t_map E (fst (g s)) = t_map E s) ->
+    forall t, t_map E (fst (t_at g z t)) = t_map E t.
+  Proof.
+    intros g z Hg. induction t as [i ch IH] using wtree_ind'. rewrite t_at_eq.
+    destruct (w_id i =? z); [apply Hg|].
+    assert (Hgo : map (t_map E) (fst (ta_go g z ch)) = map (t_map E) ch).
+    { induction IH as [|c r Hc Hr IHr]; [reflexivity|].
+      cbn [ta_go]. destruct (t_at g z c) as [c' e1]. fold (ta_go g z r).
+      destruct (ta_go g z r) as [r' e2]. cbn [fst map] in *. rewrite Hc, IHr. reflexivity. }
+    destruct (ta_go g z ch) as [ch' e]. cbn [fst t_map] in *. rewrite Hgo. reflexivity.
+  Qed.
+
+  Lemma t_update_E : forall f z, (forall i, E (f i) = E i) -> forall t, t_map E (t_update f z t) = t_map E t.
+  Proof.
+    intros f z Hf t. rewrite t_update_map, t_map_comp. apply t_map_ext.
+    intro i. destruct (w_id i =? z); [apply Hf|reflexivity].
+  Qed.
+End Erasure.
+
+Lemma E_l_focused : forall i b, E_l (set_focused i b) = E_l i.
+Proof. reflexivity. Qed.
+Lemma E_v_focused : forall i b, E_v (set_focused i b) = E_v i.
+Proof. reflexivity. Qed.
+
+(* wf_focus only looks at the link shape *)
+Lemma wf_focus_lshape_fwd : forall t, wf_focus t -> wf_focus (lshape t).
+Proof.
+  intros t Hwf. unfold lshape. apply wf_focus_map; [reflexivity|].
+  intros i ch Hs k Hk. cbn [E_l w_fchild] in Hk.
+  destruct (wf_focus_node _ _ _ _ Hwf Hs Hk) as [c [Hin [Hid Hv]]].
+  exists c. split; [exact Hin|]. split; [exact Hid|exact Hv].
+Qed.
+
+Lemma wf_focus_lshape_bwd : forall t, wf_focus (lshape t) -> wf_focus t.
+Proof.
+  induction t as [i ch IH] using wtree_ind'. intro Hwf.
+  unfold lshape in Hwf. cbn [t_map] in Hwf. apply wf_focus_inv in Hwf. destruct Hwf as [Hl Hch].
+  rewrite Forall_forall in *. constructor.
+  - intros k Hk. destruct (Hl k Hk) as [c' [Hin' [Hid' Hv']]].
+    apply in_map_iff in Hin'. destruct Hin' as [c [Hc Hin]]. subst c'.
+    exists c. split; [exact Hin|]. destruct c as [j cs]. split; [exact Hid'|exact Hv'].
+  - rewrite Forall_forall. intros c Hin. apply IH; [exact Hin|].
+    apply Hch. apply in_map. exact Hin.
+Qed.
+
+Lemma wf_focus_lshape : forall t t', lshape t = lshape t' -> wf_focus t -> wf_focus t'.
+Proof.
+  intros t t' H Hwf. apply wf_focus_lshape_bwd. rewrite <- H. apply wf_focus_lshape_fwd. exact Hwf.
+Qed.
+
+(* vshape keeps ids, and commutes with t_find *)
+Lemma t_map_ids : forall F, (forall i, w_id (F i) = w_id i) -> forall t, t_ids (t_map F t) = t_ids t.
+Proof.
+  intros F HF. induction t as [i ch IH] using wtree_ind'.
+  cbn [t_map t_ids]. rewrite HF. f_equal.
+  induction IH as [|c r Hc Hr IHr]; [reflexivity|]. cbn [map flat_map]. rewrite Hc, IHr. reflexivity.
+Qed.
+
+Lemma vshape_ids : forall t t', vshape t = vshape t' -> t_ids t = t_ids t'.
+Proof.
+  intros t t' H. rewrite <- (t_map_ids E_v (fun _ => eq_refl) t), <- (t_map_ids E_v (fun _ => eq_refl) t').
+  unfold vshape in H. rewrite H. reflexivity.
+Qed.
+
+Lemma t_find_map : forall F, (forall i, w_id (F i) = w_id i) ->
+  forall y t, t_find y (t_map F t) = option_map (t_map F) (t_find y t).
+Proof.
+  intros F HF y. induction t as [i ch IH] using wtree_ind'.
+  cbn [t_map]. rewrite !t_find_unf. rewrite HF.
+  destruct (w_id i =? y); [reflexivity|].
+  induction IH as [|c r Hc Hr IHr]; [reflexivity|].
+  cbn [map tf_go]. rewrite Hc. destruct (t_find y c); [reflexivity|exact IHr].
+Qed.
+
+Lemma vshape_find : forall T T' y s', vshape T = vshape T' -> t_find y T' = Some s' ->
+  exists s, t_find y T = Some s /\ vshape s = vshape s'.
+Proof.
+  intros T T' y s' H Hf.
+  pose proof (t_find_map E_v (fun _ => eq_refl) y T) as H1.
+  pose proof (t_find_map E_v (fun _ => eq_refl) y T') as H2.
+  fold (vshape T) in H1. fold (vshape T') in H2. rewrite H, H2, Hf in H1.
+  destruct (t_find y T) as [s|]; [|discriminate]. cbn [option_map] in H1.
+  exists s. split; [reflexivity|]. inversion H1. reflexivity.
+Qed.
+
+Lemma vshape_node : forall s s', vshape s = vshape s' ->
+  t_id s = t_id s' /\ w_vis (t_info s) = w_vis (t_info s') /\
+  map vshape (t_kids s) = map vshape (t_kids s').
+Proof.
+  intros [i ch] [i' ch'] H. unfold vshape in H. cbn [t_map] in H. inversion H.
+  repeat split; assumption.
+Qed.
+
+(* has a visible child with the given id *)
+Definition hvk (T : wtree) (w c : Z) : Prop :=
+  exists wn x, t_find w T = Some wn /\ In x (t_kids wn) /\ t_id x = c /\ w_vis (t_info x) = true.
+
+Lemma hvk_transfer : forall T T' w c, vshape T = vshape T' -> hvk T w c -> hvk T' w c.
+Proof.
+  intros T T' w c H [wn [x [Hf [Hin [Hid Hv]]]]].
+  destruct (vshape_find T' T w wn (eq_sym H) Hf) as [wn' [Hf' Hs]].
+  destruct (vshape_node _ _ Hs) as [_ [_ Hkids]].
+  assert (Hx : In (vshape x) (map vshape (t_kids wn'))).
+  { rewrite Hkids. apply in_map. exact Hin. }
+  apply in_map_iff in Hx. destruct Hx as [x' [Hx' Hin']].
+  destruct (vshape_node _ _ Hx') as [Hid' [Hv' _]].
+  exists wn', x'. split; [exact Hf'|]. split; [exact Hin'|]. split; congruence.
+Qed.
+
+(* the condition on the rest of the chain, stable under every focus operation *)
+Fixpoint cc (chain : list Z) (child : option Z) (T : wtree) : Prop :=
+  match chain with
+  | [] => True
+  | w :: rest =>
+    (forall c, child = Some c -> hvk T w c) /\
+    (forall wn, t_find w T = Some wn -> w_vis (t_info wn) = true -> cc rest (Some w) T)
+  end.
+
+Lemma cc_transfer : forall chain child T T', vshape T = vshape T' -> cc chain child T -> cc chain child T'.
+Proof.
+  induction chain as [|w rest IH]; intros child T T' H Hcc; [exact I|].
+  cbn [cc] in *. destruct Hcc as [H1 H2]. split.
+  - intros c Hc. eapply hvk_transfer; [exact H|apply H1; exact Hc].
+  - intros wn' Hf' Hv'. destruct (vshape_find T T' w wn' H Hf') as [wn [Hf Hs]].
+    destruct (vshape_node _ _ Hs) as [_ [Hv _]].
+    eapply IH; [exact H|]. apply (H2 wn Hf). congruence.
+Qed.
+
+Lemma cc_init : forall T, NoDup (t_ids T) -> forall up prev,
+  Forall (fun a => subtree a T) up -> uplinked up ->
+  match prev, up with
+  | Some n, b :: _ => In n (t_kids b) /\ w_vis (t_info n) = true
+  | _, _ => True
+  end ->
+  cc (map t_id up) (option_map t_id prev) T.
+Proof.
+  intros T Hnd. induction up as [|b r IH]; intros prev Hall Hup Hprev; [exact I|].
+  inversion Hall as [|? ? Hb Hall']; subst. cbn [map cc]. split.
+  - intros c Hc. destruct prev as [n|]; [|discriminate]. cbn [option_map] in Hc. inversion Hc; subst c.
+    destruct Hprev as [Hin Hv]. exists b, n.
+    split; [apply t_find_subtree; assumption|]. repeat split; assumption.
+  - intros wn Hf Hv. rewrite (t_find_subtree _ _ Hb Hnd) in Hf. inversion Hf; subst wn.
+    cbn [uplinked] in Hup. destruct Hup as [Hlink Hup'].
+    apply (IH (Some b) Hall' Hup'). destruct r as [|b2 r']; [exact I|]. split; assumption.
+Qed.
